@@ -25,6 +25,16 @@ func tryCases(sp *simProc, cases []Case, v *Violation) (bool, *RunResult, *Viola
 	writeBatch(in, bt)
 	sp.refBatch(in, ref)
 	bt = readBatch(ref)
+	if v.Engine == "ref" {
+		sp.refReverse(in, out)
+		rv := readBatch(out)
+		for _, c := range compareRefs(bt, rv) {
+			if c.key() == v.key() {
+				return true, nil, c
+			}
+		}
+		return false, nil, nil
+	}
 	tries := 1
 	if v.Engine == "par" {
 		tries = 8
@@ -124,6 +134,9 @@ func minimise(sp *simProc, v *Violation, deadline time.Time) *Violation {
 	adopt(conf)
 	expired := func() bool { return time.Now().After(deadline) }
 
+	if v.Engine == "ref" {
+		return minimiseRef(sp, v, &best, deadline)
+	}
 	// 1. drop the batch prefix (history) if the failing run fails alone; else ddmin the prefix
 	if len(best.Cases) > 1 && !expired() {
 		only := []Case{best.Cases[len(best.Cases)-1]}
@@ -249,4 +262,74 @@ func minimise(sp *simProc, v *Violation, deadline time.Time) *Violation {
 		}
 	}
 	return &best
+}
+
+// minimiseRef shrinks a forward/reverse reference disagreement: drop cases,
+// then tasks and operations of every remaining case.
+func minimiseRef(sp *simProc, v *Violation, best *Violation, deadline time.Time) *Violation {
+	expired := func() bool { return time.Now().After(deadline) }
+	try := func(cases []Case) bool {
+		if ok, _, c := tryCases(sp, cases, v); ok {
+			best.Cases = c.Cases
+			best.RunPos, best.RunIndex, best.Detail = c.RunPos, c.RunIndex, c.Detail
+			return true
+		}
+		return false
+	}
+	chunk := (len(best.Cases) + 1) / 2
+	for chunk >= 1 && !expired() {
+		removed := false
+		for i := 0; i+chunk <= len(best.Cases) && len(best.Cases) > 1 && !expired(); {
+			cand := append(append([]Case(nil), best.Cases[:i]...), best.Cases[i+chunk:]...)
+			if len(cand) > 0 && try(cand) {
+				removed = true
+			} else {
+				i += chunk
+			}
+		}
+		if !removed || chunk == 1 {
+			chunk /= 2
+		}
+	}
+	for ci := 0; ci < len(best.Cases) && !expired(); ci++ {
+		repl := func(nc Case) bool {
+			cand := append([]Case(nil), best.Cases...)
+			cand[ci] = nc
+			return try(cand)
+		}
+		if len(best.Cases[ci].Spec.Prewarm) > 0 {
+			d := cloneCase(best.Cases[ci])
+			d.Spec.Prewarm = nil
+			repl(d)
+		}
+		for t := len(best.Cases[ci].Spec.Tasks) - 1; t >= 0 && !expired(); t-- {
+			if len(best.Cases[ci].Spec.Tasks) > 1 {
+				repl(dropTask(best.Cases[ci], t))
+			}
+		}
+		for t := 0; t < len(best.Cases[ci].Spec.Tasks) && !expired(); t++ {
+			chunk := (len(best.Cases[ci].Spec.Tasks[t]) + 1) / 2
+			for chunk >= 1 && !expired() {
+				removed := false
+				for i := 0; i+chunk <= len(best.Cases[ci].Spec.Tasks[t]) && !expired(); {
+					if repl(dropOps(best.Cases[ci], t, i, i+chunk)) {
+						removed = true
+					} else {
+						i += chunk
+					}
+				}
+				if !removed || chunk == 1 {
+					chunk /= 2
+				}
+			}
+		}
+	}
+	for k := 0; k < 2; k++ {
+		if ok, _, _ := tryCases(sp, best.Cases, v); !ok {
+			fb := *v
+			fb.Detail += " [note: minimised form was not stable; unminimised batch reported]"
+			return &fb
+		}
+	}
+	return best
 }
